@@ -720,6 +720,26 @@ fn check_determinism(ctx: &mut Ctx, c: &TrajCase) -> R {
     };
     let f = run(&cl, c.kmax).map_err(|m| crate::engine::Fail { sig: format!("C10/{}/panic", kind), what: m })?;
     ensure!(bits_eq(&a, &f), sig, "{:?} on {} from {:?}, budget {}: a cloned optimizer returned {:?}, the original {:?}", c.opt, c.obj.name(), c.x0, c.kmax, f, a);
+    // the documented default setting ("the defaults recommended by Kingma and Ba 2014": 0.001, 0.9, 0.999, 1e-8) is a
+    // hyper-parameter setting like any other: Adam::default() / with_stepsize(s) are Adam::new(s, 0.9, 0.999, 1e-8)
+    if let Opt::Adam { step, .. } = c.opt {
+        let explicit = LibOpt::Adam(compute::optimize::Adam::new(step, 0.9, 0.999, 1e-8));
+        let with = LibOpt::Adam(compute::optimize::Adam::with_stepsize(step));
+        let mut dflt = compute::optimize::Adam::default();
+        dflt.set_stepsize(step);
+        let dflt = LibOpt::Adam(dflt);
+        let want = run(&explicit, c.kmax).map_err(|m| crate::engine::Fail { sig: "C10/adam/panic".into(), what: m })?;
+        for (name, l) in [("Adam::with_stepsize(s)", &with), ("Adam::default() + set_stepsize(s)", &dflt)] {
+            let got = run(l, c.kmax).map_err(|m| crate::engine::Fail { sig: "C10/adam/panic".into(), what: m })?;
+            ensure!(
+                bits_eq(&want, &got),
+                "C10/adam/defaults",
+                "{} with s = {:e} on {} from {:?}, budget {}: returned {:?}, Adam::new(s, 0.9, 0.999, 1e-8) returns {:?}",
+                name, step, c.obj.name(), c.x0, c.kmax, got, want
+            );
+        }
+        ctx.label("determinism", "adam-default-setting-compared");
+    }
     Ok(())
 }
 
